@@ -75,7 +75,7 @@ CLAIMED = {
              '(is_error, if_error, get_error) or when a clone was forwarded; (3) must-pass-through: every origin of the argument vector of a user call (the parameter, and the TailCall payload taken by the '
              'trampoline) passes the erroring-argument test before from_template; (4) by element types, collections cannot hold errors; (5) no position-dropping iterator adaptor '
              '(skip, step_by, nth, last, ...) is applied to an iterator whose items can carry a violation, and closure-deciding adaptors (skip_while, filter, ...) keep a violation item '
-             '(the closure is evaluated abstractly on a violation). NOT decided: the leftmost-error order among '
+             '(the closure is evaluated abstractly on a violation); iterators that come from XSequence::iter / XGenerator::iter are recognised as fallible although their concrete type does not say so. NOT decided: the leftmost-error order among '
              'several simultaneous errors beyond the argument-order rule of C02.',
         note='Trusted: rustc drop elaboration; the book as the list of handlers. Two exemptions with reasons in rules/c06.py (E_EXEMPT).',
         technique='static analysis: path-sensitive drop/linearity analysis (drop flags × discriminants) and combinator inventory on resolved MIR',
@@ -119,7 +119,7 @@ CLAIMED = {
              'parent id; the forward gate is transitive (a definition that fulfils a declaration stores its own outstanding requirements in the '
              'declaration\'s cell on every registering path, and require_forwards passes the requirements of a fulfilled declaration\'s cell on to its '
              'work list); a function value created over a pending capture follows the pending chain first and stays pending only if the cell is still '
-             'unfilled; the lexical-parent search of a call falls back to the root of the call stack (a function declared at the root is found from any caller). NOT decided: that the resolved (depth, index) pairs are right for every nesting shape. One known finding: pending captures '
+             'unfilled; the lexical-parent search of a call falls back to the root of the call stack (a function declared at the root is found from any caller); every declared function cell, of a named function or a lambda, carries the function\'s own forward requirements. NOT decided: that the resolved (depth, index) pairs are right for every nesting shape. One known finding: pending captures '
              'are resolved through lexical parent links with expect(), which an escaped function value does not have.',
         note='Trusted: rustc MIR, syn; python re as the reading of the interner regex literal. Known finding R03.10 in known_findings.json.',
         technique='static analysis: who-reads, must-pass-through (avoiding-path reachability), call-graph may-allocate closure, syntax-tree shape rules',
@@ -208,9 +208,9 @@ CLAIMED = {
         text='A loop inventory on resolved MIR: every natural loop (back edge) of the builtin and utility bodies (82) is classified as budgeted '
              '(structurally: the iterator is zipped with the search budget on every arm of every Either), finite-structural (iterates an existing '
              'in-memory collection, a usize range or a take(n), and not the logical elements of a lazy sequence / generator), or listed with a termination reason; inside the generator iterator every adaptor that can discard unboundedly many items '
-             'per step is over a finite outer, calls a user function per item (so the call limit bounds it) or is reported; generator consumption '
+             'per step is over a finite outer, zipped with the search budget or takes a search permit per examined item (calling the program\'s function per item is not a bound: it may be a native function value), or is reported; generator consumption '
              'and core::search are zipped with the search budget and propagate its violation; the timeout gate has the shape deadline > now and '
-             'dominates every user frame; the search budget of a native call is obtained once, outside every loop and per-item closure. One known finding (unbudgeted skip). NOT decided: wall-clock bounds, cost of library calls, loops over '
+             'dominates every user frame; the search budget of a native call is obtained once, outside every loop and per-item closure (the crate helpers that obtain a budget for their caller count as sources). One known finding (unbudgeted skip). NOT decided: wall-clock bounds, cost of library calls, loops over '
              'sequences of finite but astronomically large logical length (bounded by the size limit only).',
         note='Trusted: rustc MIR (back edges), std iterator type names denote what they iterate; termination reasons in rules/c10.py LOOP_OK confirmed by reading.',
         technique='static analysis: natural-loop inventory with type-based iterator classification on resolved MIR; adaptor inventory; shape rules',
@@ -223,7 +223,7 @@ CLAIMED = {
              '/ out-of-range exits are checked); Chain and Slice literals occur only inside their invariant-keeping constructors and a slice of '
              'a slice is flattened by adding offsets (the operands of the rebuilt Slice come from the inner payload plus the request); whether slice() builds a Slice at all is decided '
              '(control + data dependence closure) by tests of start against end and against the length; the Range literal is built only after the zero-step and emptiness tests; '
-             'value_to_idx compares the converted index with the length as idx >= len / idx < len wherever the test is written; natives never order two raw index arguments before normalising them; optional bounds (None = unbounded) are never combined with the derived ordering of Option; every success return of a native that validates an index lies behind value_to_idx on every path. NOT decided: '
+             'value_to_idx compares the converted index with the length as idx >= len / idx < len wherever the test is written; natives never order two raw index arguments before normalising them; optional bounds (None = unbounded) are never combined with the derived ordering of Option; integer `as` casts in the builtins keep the value (widening) or are listed with the bound that makes them exact (a length `as isize` is neither); every success return of a native that validates an index lies behind value_to_idx on every path. NOT decided: '
              'agreement of len/get/slice/... with list semantics for all compositions (value level).',
         note='Trusted: rustc MIR, syn parse.',
         technique='static analysis: type-closure immutability audit; who-constructs rules; backward slices, control-dependence closure and operand-origin classification of comparisons on resolved MIR',
